@@ -16,8 +16,10 @@ func runR3(a *Analyzer, r *Results) {
 	runStorageLog(a, r)
 	runConsumers(a, r)
 	runBuildersFrozen(a, r)
+	runFactoryCollections(a, r)
 	runSPIImplementations(a, r)
 	runStorageSlots(a, r)
+	runStorageShape(a, r)
 	runSingletons(a, r)
 	runInPlace(a, r)
 	runRoundBookkeeping(a, r)
@@ -1296,4 +1298,217 @@ func callMustReach(a *Analyzer, in ssa.Instruction, recvType, method string, dep
 	}
 	seen[sc.Blocks[0]] = true
 	return walk(sc.Blocks[0])
+}
+
+// cacheBookkeeping (F2.side): on the receive path the cache's bookkeeping - the high-water mark and the eviction of
+// lower heights - is driven only by messages that are themselves accepted for caching (own instance, not our own,
+// future height). A message that will be dropped must not be able to evict the backlog or raise the bound.
+func (ig *ingest) cacheBookkeeping(e *Effect) {
+	if e.Config != "" || len(e.Splits) > 0 || e.Entry != idE1 {
+		return
+	}
+	for _, fr := range e.Path {
+		if fr.Fn == idE2 {
+			return // the drain of a round started by this message: judged by F3 / F6 / F7
+		}
+	}
+	rmf := This("rawmessagesfilter.RawMessageFilter")
+	text := "on the receive path the future cache's bookkeeping (eviction of lower heights, raising the one-height bound) is driven only by a message that is itself accepted for caching: own instance, not the node's own, future height"
+	var hExpr *Term
+	switch {
+	case e.Kind == "store" && e.Name == "rawmessagesfilter.RawMessageFilter.latestFutureBlockHeight":
+		hExpr = unfreeze(e.Args[0])
+	case e.Kind == "mapdelete" && e.Name == "rawmessagesfilter.RawMessageFilter.futureCache" && len(e.Args) == 2:
+		ev0 := ig.a.NewEval(e, ig.r)
+		for _, b := range ev0.Find(Lt(ev0.Arg(1), Var("bound"))) {
+			hExpr = unfreeze(b["bound"])
+		}
+	default:
+		return
+	}
+	ev := ig.a.NewEval(e, ig.r)
+	b := map[string]*Term{}
+	if hExpr == nil || !Match(Call("protocol.BlockHeight", Call("protocol.SignedHeader", Var("C"))), hExpr, b) {
+		ev.Verdict("F2.side", props("C17", "C08"), text, "", false, "the bookkeeping is not driven by the height of the received message: "+PP(hExpr))
+		return
+	}
+	C := b["C"]
+	H := Call("protocol.SignedHeader", C)
+	ev.Require("F2.side", props("C17", "C08"), text, "",
+		Eq(inst(H), Field(rmf, "instanceId")), Ne(mid(Call("protocol.Sender", C)), Field(rmf, "myMemberId")), Lt(ig.k.SHeight, ht(H)))
+}
+
+// ---------------------------------------------------------------- ST.shape: what the log can tell apart
+
+// A vote is identified by (height, view[, block hash], sender). Whatever the in-memory log looks like (nested maps,
+// composite key structs, helper records), every per-sender level of a log must sit below keys for all the other
+// components: otherwise "already have this sender's message" is decided on a coarser key and a correct member's
+// message for another view or block is dropped as a duplicate.
+func runStorageShape(a *Analyzer, r *Results) {
+	n := a.P.LibType("services/storage.InMemoryStorage")
+	st, ok := n.Underlying().(*types.Struct)
+	if !ok {
+		r.Undecided = append(r.Undecided, "InMemoryStorage is not a struct (ST.shape anchor)")
+		return
+	}
+	need := map[string][]string{
+		"prepareStorage":    {"BlockHeight", "View", "Hash"},
+		"commitStorage":     {"BlockHeight", "View", "Hash"},
+		"viewChangeStorage": {"BlockHeight", "View"},
+	}
+	keyName := func(t types.Type) string {
+		s := typeShort(t)
+		if i := strings.LastIndex(s, "."); i >= 0 {
+			s = s[i+1:]
+		}
+		return s
+	}
+	for i := 0; i < st.NumFields(); i++ {
+		fname := canonicalField(n, st.Field(i).Name())
+		req, isLog := need[fname]
+		if !isLog {
+			continue
+		}
+		var bad []string
+		nMember := 0
+		var walk func(t types.Type, keys []string, depth int, seen map[types.Type]bool)
+		walk = func(t types.Type, keys []string, depth int, seen map[types.Type]bool) {
+			if depth > 8 || seen[t] {
+				return
+			}
+			switch x := t.Underlying().(type) {
+			case *types.Pointer:
+				walk(x.Elem(), keys, depth+1, seen)
+			case *types.Slice:
+				walk(x.Elem(), keys, depth+1, seen)
+			case *types.Struct:
+				if nt, isNamed := t.(*types.Named); isNamed && nt.Obj().Pkg() != nil && !strings.HasSuffix(nt.Obj().Pkg().Path(), "services/storage") {
+					return // a message: the leaf
+				}
+				seen[t] = true
+				for j := 0; j < x.NumFields(); j++ {
+					walk(x.Field(j).Type(), keys, depth+1, seen)
+				}
+				delete(seen, t)
+			case *types.Map:
+				var ks []string
+				if ks2, isStruct := x.Key().Underlying().(*types.Struct); isStruct {
+					for j := 0; j < ks2.NumFields(); j++ {
+						ks = append(ks, keyName(ks2.Field(j).Type()))
+					}
+				} else {
+					ks = []string{keyName(x.Key())}
+				}
+				isMember := false
+				for _, kn := range ks {
+					if strings.Contains(kn, "MemberId") {
+						isMember = true
+					}
+				}
+				all := append(append([]string{}, keys...), ks...)
+				if isMember {
+					nMember++
+					for _, rq := range req {
+						found := false
+						for _, kn := range all {
+							if strings.Contains(kn, rq) {
+								found = true
+							}
+						}
+						if !found {
+							bad = append(bad, "a per-sender level is keyed by ["+strings.Join(all, ", ")+"]: no "+rq+" component")
+						}
+					}
+				}
+				walk(x.Elem(), all, depth+1, seen)
+			}
+		}
+		walk(st.Field(i).Type(), nil, 0, map[types.Type]bool{})
+		why := ""
+		if nMember == 0 {
+			why = "the log has no per-sender level (duplicates of one sender cannot be told from votes of different senders)"
+		} else if len(bad) > 0 {
+			why = dedupSorted(bad)[0]
+		}
+		r.Check("ST.shape", props("C11", "C03", "C01", "C10"), "every per-sender level of a message log lies below keys for height, view and (for PREPARE / COMMIT) block hash: 'this sender already voted' is never decided on a coarser key, so a correct member's vote for another view or block is not dropped as a duplicate", fname, a.P.Pos(st.Field(i).Pos()), why == "", why, "D")
+	}
+}
+
+// ---------------------------------------------------------------- W6.args: the factory embeds the collections it is given, all of them
+
+func runFactoryCollections(a *Analyzer, r *Results) {
+	n := 0
+	for _, f := range a.P.Funcs {
+		if !strings.HasSuffix(funcPkgPath(f), "services/messagesfactory") {
+			continue
+		}
+		c := a.NewFCtx(f, a.EntryEnv(f, nil), 0)
+		for _, b := range f.Blocks {
+			for _, in := range b.Instrs {
+				st, ok := in.(*ssa.Store)
+				if !ok {
+					continue
+				}
+				fa, ok := st.Addr.(*ssa.FieldAddr)
+				if !ok {
+					continue
+				}
+				pt, ok := fa.X.Type().Underlying().(*types.Pointer)
+				if !ok {
+					continue
+				}
+				nt, ok := pt.Elem().(*types.Named)
+				if !ok || nt.Obj().Pkg() == nil || nt.Obj().Pkg().Path() != modPath+"/spec/types/go/protocol" || !strings.HasSuffix(nt.Obj().Name(), "Builder") {
+					continue
+				}
+				sl, isSlice := st.Val.Type().Underlying().(*types.Slice)
+				if !isSlice {
+					continue
+				}
+				if bt, isB := sl.Elem().Underlying().(*types.Basic); isB && bt.Kind() == types.Byte {
+					continue
+				}
+				n++
+				t := c.Term(st.Val)
+				why := "the collection stored into " + nt.Obj().Name() + "." + fieldName(fa.X.Type(), fa.Field) + " is " + PP(t)
+				var okVal func(v ssa.Value, depth int) bool
+				okVal = func(v ssa.Value, depth int) bool {
+					if k, isC := v.(*ssa.Const); isC && k.IsNil() {
+						return true
+					}
+					tv := c.Term(v)
+					switch {
+					case tv.Op == "root": // the caller's collection, as is
+						return true
+					case tv.Op == "map": // one element per element of the source, in order
+						return true
+					case tv.Key() == tNil.Key():
+						return true
+					}
+					if ph, isPhi := v.(*ssa.Phi); isPhi && depth < 3 {
+						for _, e := range ph.Edges {
+							if !okVal(e, depth+1) {
+								return false
+							}
+						}
+						return true
+					}
+					return false
+				}
+				okv := okVal(st.Val, 0)
+				if ph, isPhi := st.Val.(*ssa.Phi); isPhi && !okv {
+					for _, e := range ph.Edges {
+						why += " | edge " + PP(c.Term(e))
+					}
+				}
+				if !okv {
+					why += ": not the argument itself nor an element-wise copy of it (elements may be dropped, added or reordered)"
+				}
+				r.Check("W6.args", props("C20", "C09", "C11", "C07"), "the message factory embeds the collections it is handed (votes of a NEW_VIEW, PREPARE senders of a proof) completely and in order: the argument itself or an element-by-element copy, never a filtered one", shortName(f)+"|"+nt.Obj().Name()+"."+fieldName(fa.X.Type(), fa.Field), a.P.InstrPos(in), okv, why, "D")
+			}
+		}
+	}
+	if n == 0 {
+		r.Undecided = append(r.Undecided, "no builder collection field is set in the message factory (W6.args anchor)")
+	}
 }
